@@ -67,10 +67,9 @@ func main() {
 
 // small is what is kept of a case in a finding: enough to re-execute, without megabytes of octets.
 func small(v *vec) interface{} {
-	if len(v.Bytes) > 4096 {
-		c := *v
-		c.Bytes = nil // re-derived by the replay from the same generator case (g, v)
-		return map[string]interface{}{"g": c.G, "v": c.V, "big": true}
+	if len(v.Bytes) > 4096 || v.Lenmsg > 4096 {
+		// re-derived by the replay from the same generator case (g, v)
+		return map[string]interface{}{"g": v.G, "v": v.V, "big": true}
 	}
 	return v
 }
@@ -107,6 +106,14 @@ func replay(path string) {
 	}
 	sum.Note("registry_types", len(dns.TypeToRR)-1) // minus the private type registered by the harness
 	sum.Print()
+}
+
+func filled(n int, fill byte) []byte {
+	b := make([]byte, n)
+	for i := range b {
+		b[i] = fill
+	}
+	return b
 }
 
 // where the octets first differ: "header", "question" or the key of the record they fall in
@@ -235,6 +242,21 @@ func one(v *vec, sum *hx.Summary) {
 		}
 	}
 
+	// 1b. the same into a caller's buffer that is large enough to be used in place and is NOT zeroed
+	// (a reused buffer): whatever the buffer held before must not leak into the message
+	if packed {
+		for _, fill := range []byte{0xff, 0xaa} {
+			m2, _ := L.BuildMsg(&v.Msg)
+			buf := filled(m2.Len()+64, fill)
+			out, err := m2.PackBuffer(buf)
+			if err != nil {
+				mis("wire/packbuffer-error:"+key, fmt.Sprintf("PackBuffer(buffer of 0x%02x): %v", fill, err))
+			} else if !bytes.Equal(out, exp) {
+				mis("wire/packbuffer-octets:"+keyAt(v, out, exp), fmt.Sprintf("PackBuffer(buffer pre-filled with 0x%02x) = %.300x, spec %.300x", fill, out, exp))
+			}
+		}
+	}
+
 	// 2. unpacking the prescribed octets gives back the message: every header bit, count and field
 	u := new(dns.Msg)
 	if err := u.Unpack(exp); err != nil {
@@ -273,15 +295,20 @@ func one(v *vec, sum *hx.Summary) {
 			ownerLen += 1 + len(l)
 		}
 		rdlen := len(seg) - ownerLen - 10
-		if packed {
-			buf := make([]byte, len(seg)+16)
-			off, err := dns.PackRR(goRRs[i], buf, 0, nil, false)
-			if err != nil {
-				sum.Mis("wire/packrr-error:"+k, fmt.Sprintf("PackRR: %v", err), small(v))
-			} else if !bytes.Equal(buf[:off], seg) {
-				sum.Mis("wire/packrr-octets:"+k, fmt.Sprintf("PackRR = %.300x, spec %.300x", buf[:off], seg), small(v))
-			} else if int(goRRs[i].Header().Rdlength) != rdlen {
-				sum.Mis("wire/packrr-rdlength:"+k, fmt.Sprintf("PackRR left Rdlength %d, RDATA is %d octets", goRRs[i].Header().Rdlength, rdlen), small(v))
+		if packed { // into buffers that are not zeroed, at offset 0 and at a non-zero offset
+			for _, c := range []struct {
+				fill byte
+				at   int
+			}{{0xff, 0}, {0xaa, 7}, {0x00, 0}} {
+				buf := filled(c.at+dns.Len(goRRs[i])+len(seg)+64, c.fill)
+				off, err := dns.PackRR(goRRs[i], buf, c.at, nil, false)
+				if err != nil {
+					sum.Mis("wire/packrr-error:"+k, fmt.Sprintf("PackRR: %v", err), small(v))
+				} else if !bytes.Equal(buf[c.at:off], seg) {
+					sum.Mis("wire/packrr-octets:"+k, fmt.Sprintf("PackRR at offset %d of a buffer pre-filled with 0x%02x = %.300x, spec %.300x", c.at, c.fill, buf[c.at:off], seg), small(v))
+				} else if int(goRRs[i].Header().Rdlength) != rdlen {
+					sum.Mis("wire/packrr-rdlength:"+k, fmt.Sprintf("PackRR left Rdlength %d, RDATA is %d octets", goRRs[i].Header().Rdlength, rdlen), small(v))
+				}
 			}
 		}
 		rr, off, err := dns.UnpackRR(exp, v.Rroff[i])
@@ -315,6 +342,11 @@ type event struct {
 	Msg2     *wire.Msg `json:"msg2"`
 	Repacked bool      `json:"repacked"`
 	Rebytes  hx.B      `json:"rebytes"`
+	// the same value packed into a caller's buffer pre-filled with 0xff (used in place), and record by record with
+	// PackRR at offset 7 of such a buffer: no error / the octets are those of Pack() (for PackRR: its tail)
+	PbufOK   bool `json:"pbufok"`
+	PbufSame bool `json:"pbufsame"`
+	RRSame   bool `json:"rrsame"`
 }
 
 func emptyMsg() *wire.Msg { return &wire.Msg{Q: []wire.Q{}, An: []wire.RR{}, Ns: []wire.RR{}, Ar: []wire.RR{}} }
@@ -332,6 +364,23 @@ func observe(a *wire.Msg, sum *hx.Summary) event {
 			return
 		}
 		e.Packed, e.Bytes = true, hx.FromBytes(b)
+		if m2, err := L.BuildMsg(a); err == nil {
+			if pb, err := m2.PackBuffer(filled(m2.Len()+64, 0xff)); err == nil {
+				e.PbufOK, e.PbufSame = true, bytes.Equal(pb, b)
+			}
+		}
+		var cat []byte
+		e.RRSame = true
+		for _, rr := range append(append(append([]dns.RR{}, m.Answer...), m.Ns...), m.Extra...) {
+			buf := filled(7+dns.Len(rr)+64, 0xff)
+			off, err := dns.PackRR(rr, buf, 7, nil, false)
+			if err != nil {
+				e.RRSame = false
+				break
+			}
+			cat = append(cat, buf[7:off]...)
+		}
+		e.RRSame = e.RRSame && bytes.HasSuffix(b, cat)
 		u := new(dns.Msg)
 		if u.Unpack(b) != nil {
 			return
